@@ -97,6 +97,25 @@ def step_budget(cls, name, limit):
         setattr(cls, name, orig)
 
 
+@contextlib.contextmanager
+def property_budget(cls, name, limit):
+    """Same for a property: the (limit+1)-th read raises Budget."""
+    orig = cls.__dict__[name]
+    state = {"calls": 0}
+
+    def getter(self):
+        state["calls"] += 1
+        if state["calls"] > limit:
+            raise Budget(f"{cls.__name__}.{name} read more than {limit} times")
+        return orig.fget(self)
+
+    setattr(cls, name, property(getter))
+    try:
+        yield state
+    finally:
+        setattr(cls, name, orig)
+
+
 def propagation_budget(nblocks):
     # every productive pass of the while-loop defines at least one of <= 3B block directions or removes
     # one of B blocks from the undefined set, and one pass calls copy_grading on <= B blocks
